@@ -2368,7 +2368,12 @@ impl BytecodeVM {
                         &prop_key,
                     )?
                 } else {
-                    obj_ref.borrow().has_own_property(&prop_key)
+                    // HasProperty: own properties (including the elements of an array and the
+                    // computed properties of functions, maps and sets), then the prototype chain
+                    obj_ref
+                        .borrow()
+                        .get_property_descriptor(&prop_key)
+                        .is_some()
                 };
 
                 self.set_reg(dst, JsValue::Boolean(has_prop));
